@@ -194,6 +194,11 @@ def main():
 
     corpus = list(plugin.corpus()) + fixed_w + kf_w
     generated = list(plugin.generate(rng, tier))
+    if res.pinned:
+        # a generated table could not be re-read from the source and the pinned copy is in use: for this run the tie
+        # between model and code is the correspondence alone, so it runs on an enlarged case set
+        extra0 = list(plugin.generate(random.Random(args.seed + 104729), "thorough"))
+        generated += extra0[: getattr(plugin, "SEARCH_CASES", 4000)]
     cases = corpus + generated
     violations = []   # (clause name, case, obs, note)
     known_hit = {}
@@ -256,6 +261,9 @@ def main():
 
     out_lines = []
     rc = 0
+    for name, why in sorted(res.pinned.items()):
+        out_lines.append(f"NOTE: table Gen/{name}.v: source shape not recognised, pinned copy used; tie by correspondence on "
+                         f"{len(cases)} cases ({why[:160]})")
     for e, c in known_hit.values():
         out_lines.append(f"KNOWN-FINDING: property={pid} {e['id']}: {e['what']}")
     if violations:
@@ -335,6 +343,8 @@ def main():
             "harness_errors": {"count": len(herr), "first": herr[0] if herr else None},
             "exhaustive": bool(getattr(plugin, "last_exhaustive", False)),
             "build_ok": res.ok, "failed": res.failed_target, "search": search_note,
+            "generated_tables": {"pinned_copy_used": res.pinned, "notes": res.gen_notes} if (res.pinned or res.gen_notes)
+            else "all tables regenerated from the current source",
             "coqchk": coqchk if coqchk is not None else "not run in the quick tier (thorough tier runs coqchk -o on the Properties module)",
         },
         "assumptions": getattr(plugin, "ASSUMPTIONS", []),
